@@ -8,7 +8,7 @@ THEOREMS = [
     "Sb.C19.rgb565_decode_encode", "Sb.C19.rgb565_encode_keeps_top_bits",
 ]
 RULE = ("wr16/wri16: every 16-bit value; wr32/wri32: all bit-boundary patterns (2^k, 2^k±1, byte fills) plus seeded random; "
-        "p16/p32: random byte strings; varu: hand-made boundary encodings + seeded random strings; "
+        "p16/p32: random byte strings; varu: hand-made boundary encodings + seeded random strings + runs of 9..300 continuation bytes cut at every interesting length; "
         "varu_grid: exhaustive enumeration of all strings of length<=2 (quick) / <=3 (thorough) over all bytes and of length<=5 "
         "(quick) / <=7 (thorough) over {00,01,0f,10,7f,80,81,ff}, at every start offset, on exactly-sized heap buffers "
         "(ASan red zone right behind byte n-1); r565d: all 65536 codes; r565e: seeded colours + r565e_all (all g,b for fixed r; "
@@ -90,6 +90,23 @@ def generate(rng, tier):
         hx = bytes(bs).hex() or "-"
         cl = rng.randint(0, n)
         out.append((f"varu {hx} {cl} {rng.randint(0, cl + 1)}", True))
+    # encodings far longer than any 64-bit value needs: the whole number is skipped however long it is, and a buffer that ends
+    # inside it is a parse error, not an overflow
+    for n in list(range(9, 24)) + [31, 32, 33, 40, 63, 64, 65, 127, 128, 129, 255, 256, 257, 300]:
+        for cont in (0x80, 0xff, 0x81):
+            for tail in ("", "00", "01", "7f", "0005", "7f80"):
+                hx = bytes([cont] * n).hex() + tail
+                L = len(hx) // 2
+                for cl in sorted({L, L - 1, n, n - 1, n + 1} & set(range(L + 1))):
+                    for off in (0, 1, 2):
+                        out.append((f"varu {hx} {cl} {off}", True))
+    for _ in range(3000 if thorough else 400):
+        n = rng.randint(9, 40)
+        bs = [rng.choice([0x80, 0x81, 0xff, 0x8f, 0x90, rng.getrandbits(8) | 0x80]) for _ in range(n)]
+        for _ in range(rng.randint(0, 3)):
+            bs.append(rng.getrandbits(8))
+        cl = rng.choice([len(bs), len(bs), rng.randint(0, len(bs))])
+        out.append((f"varu {bytes(bs).hex()} {cl} {rng.randint(0, 3)}", True))
     # exhaustive grids
     out.append(("varu_grid * 0 -", True))
     out.append(("varu_grid * 1 -", True))
